@@ -259,14 +259,13 @@ def run_frame_writers(ctx, only_encrypted=False):
                     ctx.violate("frame.affine", f"{pk}|form", f"{fn['path']}, {rng}: 3-byte size form used although the size field ({sflo:#x}) fits 15 bits", fn["file"], fn["line"])
                 if size_len == 2 and sfhi > 0x7FFF:
                     ctx.violate("frame.affine", f"{pk}|form", f"{fn['path']}, {rng}: 2-byte size form used although the size field ({sfhi:#x}) needs the 3-byte form (bit 15 is the large-header marker)", fn["file"], fn["line"])
-            direct = None
-            if s.transport is not None and not s.staged:
+            # bytes that reach the transport = header + body, whether they were staged in a Vec or written directly; a runtime
+            # assert_eq!(size, v.len()) is welcome but not required: size() = bytes written is decided by size.write-agree
+            if s.transport is not None:
                 t = s.transport[2][0]
-                direct = (t[1], t[2]) == (1, s.header_len) or (lo == hi and t[1] * lo + t[2] == lo + s.header_len)
-            if s.assert_ok is None and direct is False:
-                ctx.violate("frame.affine", f"{pk}|bytes", f"{fn['path']}, {rng}: {s.transport[2][0][1]}*B+{s.transport[2][0][2]} bytes reach the transport, a frame is the {s.header_len} header bytes + B", fn["file"], fn["line"])
-            elif s.assert_ok is None and direct is None:
-                ctx.violate("frame.affine", f"{pk}|no-assert", f"{fn['path']}, {rng}: declared size is never compared with the bytes written", fn["file"], fn["line"])
+                exact = (t[1], t[2]) == (1, s.header_len) or (lo == hi and t[1] * lo + t[2] == lo + s.header_len)
+                if not exact:
+                    ctx.violate("frame.affine", f"{pk}|bytes", f"{fn['path']}, {rng}: {t[1]}*B+{t[2]} bytes reach the transport, a frame is the {s.header_len} header bytes + B", fn["file"], fn["line"])
         if n <= 2:
             ctx.sample({"writer": fn["path"], "pieces": [(hex(lo), hex(hi), [e[0] for e in (s.events if s else [])]) for lo, hi, s, err in res][:8]})
     if only_encrypted:
